@@ -37,6 +37,8 @@ func main() {
 		runC17(*seed, *count)
 	case "C11":
 		runC11(*seed, *count)
+	case "C13":
+		runC13tcp(*seed, *count)
 	case "C15":
 		runC15(*seed, *count)
 	case "C16":
